@@ -209,7 +209,8 @@ class TranslatorSMT2(Translator):
                 elif expr.op == "%":
                     res = bvurem(res, arg)
                 elif expr.op == "smod":
-                    res = bvsmod(res, arg)
+                    # Miasm smod takes the sign of the dividend (C '%'): bvsrem
+                    res = bvsrem(res, arg)
                 elif expr.op == "umod":
                     res = bvurem(res, arg)
                 elif expr.op == "&":
